@@ -412,7 +412,10 @@ class ChooseOp(IRDLOperation):
             SSAValue.get(arg): SSAValue.get(val)
             for arg, val in zip(operations[0].operands, default_block.args, strict=True)
         }
-        default_block.add_ops([result := operations[0].clone(value_mapper), YieldOp(result)])
+        result = operations[0].clone(value_mapper)
+        # map operands positionally: the value mapper maps an operation using the same value twice to one argument
+        result.operands = default_block.args
+        default_block.add_ops([result, YieldOp(result)])
         default_region = Region(default_block)
         # Non-default
         case_regions: list[Region] = []
@@ -423,7 +426,9 @@ class ChooseOp(IRDLOperation):
                     SSAValue.get(arg): SSAValue.get(val)
                     for arg, val in zip(operation.operands, case_block.args, strict=True)
                 }
-                case_block.add_ops([result := operation.clone(value_mapper), YieldOp(result)])
+                result = operation.clone(value_mapper)
+                result.operands = case_block.args
+                case_block.add_ops([result, YieldOp(result)])
                 case_regions.append(Region(case_block))
         return ChooseOp(
             name=name,
